@@ -94,6 +94,10 @@ def gen_case(run_seed: int, index: int, tier: str) -> dict:
         "warmup_n": rng.choice([1, 1, 2, 4]), "other_instance_first": rng.random() < 0.2, "mode_toggle": rng.choice([None, None, "eval", "train"]),
         "supplied_precision": rng.choice(["same", "same", "noise_other", "csi_other", "both_other"]),
         "dc": rng.random() < 0.4,  # noise mode: a signal with a DC component through channel state with a non-zero mean
+        "rows_unequal": rng.random() < 0.5,  # noise mode: batch items of very different strength (the noise level is one number for the whole call)
+        # a model sweep builds every channel from one parameter set: k_factor and shadow_sigma_db are given whatever the fading type
+        # (each is documented as used only by its own fading type)
+        "all_params": rng.random() < 0.3,
     }
 
 
@@ -101,11 +105,14 @@ def _channel(case):
     kw = {"avg_noise_power": case["power"]} if case["noise_param"] == "power" else {"snr_db": case["snr_db"]}
     ft = case["fading"]
     if case["how"] == "convenience":
+        extra = {"shadow_sigma_db": case["sigma_db"] if case["sigma_db"] > 0 else 6.0} if case.get("all_params") else {}
         if ft == "rayleigh":
-            return RayleighFadingChannel(coherence_time=case["T"], **kw)
+            return RayleighFadingChannel(coherence_time=case["T"], **extra, **kw)
         if ft == "rician":
-            return RicianFadingChannel(k_factor=case["k"], coherence_time=case["T"], **kw)
+            return RicianFadingChannel(k_factor=case["k"], coherence_time=case["T"], **extra, **kw)
         return LogNormalFadingChannel(shadow_sigma_db=case["sigma_db"], coherence_time=case["T"], **kw)
+    if case.get("all_params"):
+        return FlatFadingChannel(ft, case["T"], k_factor=case["k"], shadow_sigma_db=case["sigma_db"] if (ft == "lognormal" or case["sigma_db"] > 0) else 6.0, **kw)
     return FlatFadingChannel(ft, case["T"], k_factor=case["k"] if ft == "rician" else None, shadow_sigma_db=case["sigma_db"] if ft == "lognormal" else None, **kw)
 
 
@@ -344,6 +351,10 @@ def execute(case: dict) -> RunResult:
             x = x.abs() + 0.5 * math.sqrt(case["sig_power"]) if not torch.is_complex(x) else x + (1.0 + 0.5j) * math.sqrt(case["sig_power"])
             h = h * 0.3 + (0.9 + 0.2j)  # line-of-sight-like state: the faded signal has a clearly non-zero mean
             res.probes["noise.dc_signal_and_mean_csi"] += 1
+        if case.get("rows_unequal") and B >= 2:
+            wrow = torch.logspace(-1, 1, B, dtype=torch.float64).reshape([B] + [1] * (len(shape) - 1))
+            x = (x * wrow).to(x.dtype)
+            res.probes["noise.batch_items_of_unequal_strength"] += 1
         hexp = h[:, torch.arange(L) // T]
         torch.manual_seed(case["torch_seed"])
         y = ch(x, csi=hexp)
@@ -364,6 +375,17 @@ def execute(case: dict) -> RunResult:
             res.probes["stat.noise_power_tests"] += 1
             if not ok:
                 violate("noise_power", f"noise power relative to the faded signal ({case['noise_param']}): {d}", stat=True, noise_param=case["noise_param"])
+            elif B >= 4:
+                # one noise level for the whole call: the weakest and the strongest batch items see the same noise power
+                q = max(1, B // 4)
+                nzr = nz.reshape(B, -1)
+                for nm, part in (("first", nzr[:q]), ("last", nzr[-q:])):
+                    pq = _pw(part)
+                    ok, d = stats.normal_test(pq, P, P * math.sqrt(1.0 / part.numel()), slack)
+                    res.probes["stat.noise_power_by_item_tests"] += 1
+                    if not ok:
+                        violate("noise_power_by_item", f"noise power on the {nm} quarter of the batch items differs from the level of the call ({case['noise_param']}): {d}", stat=True, noise_param=case["noise_param"])
+                        break
     res.digest, res.n_events = log.digest(), len(log)
     return res
 
